@@ -10,6 +10,7 @@ Case shapes (first element = op):
 """
 import io
 import os
+import random
 import re
 import tempfile
 
@@ -537,16 +538,16 @@ class Speller:
         return self.rng.choice([b"$TTL", b"$ttl"]) + self.ws() + self.ttl_text(t) + b"\n"
 
 
-def zone_file(rng, origin, rel, nodes, plain=False, noise=0.0, exact=False):
+def zone_file(rng, origin, rel, nodes, plain=False, noise=0.0, exact=False, directives=True):
     """text of a zone file holding the records of the abstract zone (one spelling among many)"""
     sp = Speller(rng, origin, plain, exact)
     out = []
-    if not plain and rng.random() < 0.3:
+    if not plain and directives and rng.random() < 0.3:
         out.append(sp.set_origin(origin))
-    if not plain and rng.random() < 0.3:
+    if not plain and directives and rng.random() < 0.3:
         out.append(sp.set_ttl(rng.choice([0, 300, 3600])))
     for n_abs, rdss in nodes:
-        if not plain and rng.random() < 0.15:
+        if not plain and directives and rng.random() < 0.15:
             o2 = n_abs[rng.randrange(len(n_abs)):] if rng.random() < 0.7 else gen_origin(rng)
             if o2 and o2[-1] == b"":
                 out.append(sp.set_origin(o2))
@@ -554,8 +555,47 @@ def zone_file(rng, origin, rel, nodes, plain=False, noise=0.0, exact=False):
             for rd in rds:
                 if rng.random() < noise:
                     out.append(rng.choice([b"\n", b"; comment line\n", b"   \n", b" ; indented comment\n", b"\t\n"]))
+                if not plain and directives and rng.random() < 0.05:
+                    # a directive between two records of one name: the owner may still be inherited
+                    if rng.random() < 0.5:
+                        o2 = n_abs[rng.randrange(len(n_abs)):] if rng.random() < 0.6 else gen_origin(rng)
+                        if o2 and o2[-1] == b"":
+                            out.append(sp.set_origin(o2))
+                    else:
+                        out.append(sp.set_ttl(rng.choice([0, 300, 3600, ttl])))
                 out.append(sp.record(n_abs, ty, ttl, rd))
     return b"".join(out)
+
+
+def outside_block(rng, origin, allow_origin_switch=True):
+    """an out-of-zone record followed by 1..3 continuation lines that inherit its owner (leading white
+    space), spelled (a) with the inherited owner, (b) with the owner repeated on every line"""
+    out_origin = [simple_label(rng), b"outside-%d" % rng.randrange(9), b""]
+    host = [simple_label(rng)]
+    recs = [b"300 IN A 192.0.2.%d", b"IN 300 TXT \"x%d\"", b"300 IN MX %d mail.elsewhere.", b"60 IN CNAME t%d.elsewhere.",
+            b"300 NS ns%d.elsewhere.", b"3600 IN AAAA 2001:db8::%d"]
+    rec = lambda: rng.choice(recs) % rng.randrange(9)
+    first, cont = rec(), [rec() for _ in range(rng.randint(1, 3))]
+    switch = allow_origin_switch and rng.random() < 0.4
+    pre, post = [], []
+    if switch:
+        pre = [b"$ORIGIN " + name_text(out_origin)]
+        post = [b"$ORIGIN " + name_text(origin)]
+        owner = name_text(host)
+    else:
+        owner = name_text(host + out_origin)
+    inherit = pre + [owner + b" " + first] + [rng.choice([b" ", b"\t", b"    "]) + r for r in cont] + post
+    explicit = pre + [owner + b" " + first] + [owner + b" " + r for r in cont] + post
+    return inherit, explicit
+
+
+def with_block(rng, base, block):
+    """the lines of `block` inserted after some complete record line of the (plain, one record per line) text"""
+    lines = base.split(b"\n")
+    if lines and lines[-1] == b"":
+        lines.pop()
+    k = rng.randint(1, len(lines))
+    return b"\n".join(lines[:k] + block + lines[k:]) + b"\n"
 
 
 def gen_generate(rng, sp, origin):
@@ -869,6 +909,31 @@ def cases(ctx):
             k = rng.randrange(len(lines))
             lines.insert(k, rng.choice([b"www.outside-%d. 300 IN A 192.0.2.1", b"outside-%d. 300 IN CNAME x.", b"a.b.outside-%d. IN 5 TXT \"x\""]) % rng.randrange(9))
         yield "respell-outside", [21, origin, int(rel), base, b"\n".join(lines)]
+    # an out-of-zone owner that following lines inherit: the whole block is ignored, and the
+    # inherited-owner spelling equals the explicit-owner spelling (from_text and read_rrsets)
+    for i in range(ctx.n(80, 1200)):
+        origin, rel, nodes = gen_zone(rng, max_names=rng.choice([1, 3]))
+        if origin == [b""]:
+            continue
+        base = zone_file(rng, origin, rel, nodes, plain=True)
+        inh, exp = outside_block(rng, origin)
+        k = rng.randrange(10**6)
+        t_inh = with_block(random.Random(k), base, inh)
+        t_exp = with_block(random.Random(k), base, exp)
+        yield "respell-outside-inherit", [21, origin, int(rel), base, t_inh]
+        yield "respell-owner-outside", [21, origin, int(rel), t_exp, t_inh]
+    for i in range(ctx.n(80, 1200)):
+        origin, rel, nodes = gen_zone(rng, max_names=rng.choice([1, 3]))
+        base = zone_file(rng, origin, rel, nodes, plain=True)
+        fancy = zone_file(rng, origin, rel, nodes, plain=False, noise=0.2, directives=False)
+        yield "rrsets-respell", [24, origin, int(rel), base, fancy]
+        if origin != [b""]:
+            inh, exp = outside_block(rng, origin, allow_origin_switch=False)
+            k = rng.randrange(10**6)
+            t_inh = with_block(random.Random(k), base, inh)
+            t_exp = with_block(random.Random(k), base, exp)
+            yield "rrsets-outside-inherit", [24, origin, int(rel), base, t_inh]
+            yield "rrsets-owner-outside", [24, origin, int(rel), t_exp, t_inh]
 
 
 _WEIRD_INT = re.compile(rb"^[0-9+_-]*[+_-][0-9+_-]*$")
@@ -976,6 +1041,21 @@ def impl(case):
             if codes != [0, 0]:
                 return [codes[0], codes[1], 0, 0]
             return [0, 0, int(zs[0] == zs[1]), int(canon(dump(zs[0])) == canon(dump(zs[1])))]
+        if op == 24:
+            outs, codes = [], []
+            for t in (case[3], case[4]):
+                try:
+                    rr = dns.zonefile.read_rrsets(t.decode("latin-1"), rdclass=None, origin=oname(case[1]), relativize=bool(case[2]))
+                    outs.append(sorted((labels_of(r.name), int(r.rdtype), int(r.covers), int(r.ttl), sorted(rd_text(rd) for rd in r))
+                                       for r in rr))
+                    codes.append(0)
+                except Exception as e:  # noqa
+                    outs.append(None)
+                    codes.append(exc_code(e).code)
+            if codes != [0, 0]:
+                return [codes[0], codes[1], 0, 0]
+            lc = lambda rs: [(tuple(lower(x) for x in n), ty, cov, ttl, rds) for n, ty, cov, ttl, rds in rs]
+            return [0, 0, int(lc(outs[0]) == lc(outs[1])), len(outs[0])]
         if op == 23:
             return dns.ttl.from_text(str(case[1]))
     except Exception as e:  # noqa
@@ -999,7 +1079,7 @@ def oracle(ctx, kind, case, out):
     op = case[0]
     if isinstance(out, Err):
         # which exception classes may escape is C04's property; here only well-formed input matters
-        if op in (20, 21, 23) and (out.code >= 100 or out.code < 0 or out.code == 11):
+        if op in (20, 21, 23, 24) and (out.code >= 100 or out.code < 0 or out.code == 11):
             fail("unexpected exception " + out.text, sig="exc")
         if op == 20 and out.code < 100:
             fail("a well-formed zone / respelling was rejected: " + out.text, sig="rejected-" + str(out.code))
@@ -1035,6 +1115,12 @@ def oracle(ctx, kind, case, out):
             fail("a well-formed spelling was rejected (%d / %d)" % (c1, c2), sig=kind + "-rejected")
         elif not (eq and eqd):
             fail("equivalent spellings loaded to different zones", sig=kind)
+    elif op == 24:
+        c1, c2, eq, n1 = out
+        if c1 or c2:
+            fail("read_rrsets rejected a well-formed spelling (%d / %d)" % (c1, c2), sig=kind + "-rejected")
+        elif not eq:
+            fail("read_rrsets: equivalent spellings gave different rrsets", sig=kind)
     elif op == 23:
         n = case[1]
         if 0 <= n <= 2**32 - 1:
